@@ -522,6 +522,44 @@ fn section_bitboards(run: &mut Run) {
         }
         check(ctx, u64::MAX, 0xdead_beef_0123_4567 ^ (i as u64) << 17);
         check(ctx, u64::MAX, 1 << i);
+        // wide masks spread over many rows: the rook-line and bishop-line masks of square i
+        // (with and without the board edge) x every index below 2^bits (at most 2^14)
+        let (f, r) = ((i % 8) as i32, (i / 8) as i32);
+        let mut rook = 0u64;
+        let mut bishop = 0u64;
+        for t in 0..64i32 {
+            let (tf, tr) = (t % 8, t / 8);
+            if t as usize == i {
+                continue;
+            }
+            if tf == f || tr == r {
+                rook |= 1 << t;
+            }
+            if (tf - f).abs() == (tr - r).abs() {
+                bishop |= 1 << t;
+            }
+        }
+        let inner = 0x007e7e7e7e7e7e00u64;
+        for mask in [rook, bishop, rook & inner, bishop & inner, rook | bishop] {
+            let bits = mask.count_ones();
+            let lim = 1u64 << bits.min(14);
+            for x in 0..lim {
+                check(ctx, mask, x);
+            }
+            check(ctx, mask, u64::MAX);
+        }
+    });
+    // structured dense sets: a byte pattern replicated in every row, shifted and complemented
+    run.par_shards("BITBOARD dense (replicated byte patterns, shifts, complements; unary + all pairs)", 256, |ctx, a| {
+        let rep = |b: u64| b * 0x0101010101010101u64;
+        let x = rep(a as u64);
+        for v in [x, !x, x << 4, x >> 4, x.rotate_left(9), x ^ 0x00ff00ff00ff00ff, x & 0x0f0f0f0ff0f0f0f0] {
+            unary(ctx, v);
+        }
+        for b in 0..256u64 {
+            binary(ctx, x, rep(b));
+            binary(ctx, x.rotate_left(9), !rep(b));
+        }
     });
 }
 
